@@ -18,7 +18,7 @@ func main() {
 	r.Assume("btcd CompactToBig/BigToCompact/CalcWork/HashToBig are correct (pure arithmetic); reference validator cross-checked against btcd CheckBlockHeaderContext/Sanity in harness self-test")
 	r.Assume("L1 drives the real handlers synchronously through the verif-tag export; network timing is out of scope here (see C04)")
 	n := r.Pick(160, 3000)
-	l1.RunMany(r.Seed, n, l1.Callbacks{
+	cbs := l1.Callbacks{
 		OnStep: func(s *l1.Session, st *l1.StepObs) {
 			fp, nt := l1.C02Fingerprint(s, st)
 			r.Case(fp, nt)
@@ -52,7 +52,11 @@ func main() {
 			}
 			r.Count("sessions", 1)
 		},
-	})
+	}
+	l1.RunMany(r.Seed, n, cbs)
+	// Wrap sessions: 12 000+ headers (the in-memory window is 10 000), forks
+	// from below the window, heavier-but-shorter branches in the thorough tier.
+	l1.RunWraps(r.Seed, r.Pick(2, 8), !r.Quick(), cbs)
 	r.Finish(25)
 }
 
